@@ -247,7 +247,7 @@ theorem lookup_mem {α : Type} (name : String) (kvs : List (String × α)) (v : 
 theorem val_consSchema (C : Ctx) (R : Rx) (all : Obj) (prim : String) (allowed : List String) (cs : Cons) (r : PV)
     (hc : consOk allowed cs = true) (hsat : satAll R cs r = true)
     (hk : ∀ c : String × Json, allowed.contains c.1 = true → sat R c r = true →
-      validateEntry C all (keywordOf prim c.1) c.2 (encode r) = true) :
+      validateEntry C all (keywordOf prim c.1) (kwValue (keywordOf prim c.1) c.2) (encode r) = true) :
     validateKws C all (consSchema prim cs) (encode r) = true := by
   rw [validateKws_eq_all, List.all_eq_true]
   intro e he
@@ -266,51 +266,51 @@ theorem val_consSchema (C : Ctx) (R : Rx) (all : Obj) (prim : String) (allowed :
 theorem val_numeric (C : Ctx) (R : Rx) (all : Obj) (prim : String) (hp : prim = "integer" ∨ prim = "number")
     (c : String × Json) (hn : numericCons.contains c.1 = true) (r : PV) (n : Num) (hnum : numOf r = some n)
     (hs : safeDecimals r = true) (hsat : sat R c r = true) :
-    validateEntry C all (keywordOf prim c.1) c.2 (encode r) = true := by
+    validateEntry C all (keywordOf prim c.1) (kwValue (keywordOf prim c.1) c.2) (encode r) = true := by
   obtain ⟨name, v⟩ := c
   have he := encode_numOf r n hnum hs
   simp only [numericCons, List.contains_cons, List.contains_nil, Bool.or_false, Bool.or_eq_true, beq_iff_eq] at hn
   rcases hp with rfl | rfl <;> rcases hn with rfl | rfl | rfl | rfl | rfl | rfl | rfl | rfl | rfl <;>
-    simp [keywordOf, constraintsMapFor, TYPE_CONSTRAINTS_MAP, assoc, validateEntry, checkSimple, sat, numSat, numKw,
+    simp [keywordOf, constraintsMapFor, TYPE_CONSTRAINTS_MAP, assoc, validateEntry, checkSimple, kwValue, sat, numSat, numKw,
       kEnum, hnum, he] at hsat ⊢ <;>
     (cases v <;> simp_all [numKw, kEnum])
 
 theorem val_string (C : Ctx) (R : Rx) (L : RxLaws R) (hC : C.search = R.search) (all : Obj)
     (c : String × Json) (hn : stringCons.contains c.1 = true) (s : String) (hsat : sat R c (.str s) = true) :
-    validateEntry C all (keywordOf "string" c.1) c.2 (encode (.str s)) = true := by
+    validateEntry C all (keywordOf "string" c.1) (kwValue (keywordOf "string" c.1) c.2) (encode (.str s)) = true := by
   obtain ⟨name, v⟩ := c
   have he : encode (.str s) = .str s := by simp [encode]
   simp only [stringCons, List.contains_cons, List.contains_nil, Bool.or_false, Bool.or_eq_true, beq_iff_eq] at hn
   rcases hn with rfl | rfl | rfl | rfl | rfl | rfl <;>
-    simp [keywordOf, constraintsMapFor, TYPE_CONSTRAINTS_MAP, assoc, validateEntry, checkSimple, sat, lenSat, lenOf, sizeKw,
+    simp [keywordOf, constraintsMapFor, TYPE_CONSTRAINTS_MAP, assoc, validateEntry, checkSimple, kwValue, sat, lenSat, lenOf, sizeKw,
       strSize, kEnum, kPattern, he] at hsat ⊢ <;>
     (cases v <;> (try simp_all [sizeKw, strSize, kEnum, kPattern]))
-  exact L.full_search _ _ hsat
+  exact L.full_anchored _ _ hsat
 
 theorem lenOf_elems (r : PV) (xs : List PV) (h : elemsOf r = some xs) : lenOf r = some xs.length := by
   cases r <;> simp [elemsOf] at h <;> subst h <;> rfl
 
 theorem val_array (C : Ctx) (R : Rx) (all : Obj) (c : String × Json) (hn : arrayCons.contains c.1 = true)
     (r : PV) (xs : List PV) (hx : elemsOf r = some xs) (hsat : sat R c r = true) :
-    validateEntry C all (keywordOf "array" c.1) c.2 (encode r) = true := by
+    validateEntry C all (keywordOf "array" c.1) (kwValue (keywordOf "array" c.1) c.2) (encode r) = true := by
   obtain ⟨name, v⟩ := c
   have he := encode_elems r xs hx
   have hl := lenOf_elems r xs hx
   simp only [arrayCons, List.contains_cons, List.contains_nil, Bool.or_false, Bool.or_eq_true, beq_iff_eq] at hn
   rcases hn with rfl | rfl | rfl | rfl <;>
-    simp [keywordOf, constraintsMapFor, TYPE_CONSTRAINTS_MAP, assoc, validateEntry, checkSimple, sat, lenSat, hl, hx, sizeKw,
+    simp [keywordOf, constraintsMapFor, TYPE_CONSTRAINTS_MAP, assoc, validateEntry, checkSimple, kwValue, sat, lenSat, hl, hx, sizeKw,
       arrSize, kUnique, he, encodeList_length] at hsat ⊢ <;>
     (cases v <;> (try simp_all [sizeKw, arrSize, kUnique, encodeList_length]))
   exact hsat
 
 theorem val_object (C : Ctx) (R : Rx) (all : Obj) (c : String × Json) (hn : objectCons.contains c.1 = true)
     (kvs : List (Key × PV)) (hsat : sat R c (.dict kvs) = true) :
-    validateEntry C all (keywordOf "object" c.1) c.2 (encode (.dict kvs)) = true := by
+    validateEntry C all (keywordOf "object" c.1) (kwValue (keywordOf "object" c.1) c.2) (encode (.dict kvs)) = true := by
   obtain ⟨name, v⟩ := c
   have he : encode (.dict kvs) = .obj (encodeDict kvs) := by simp [encode]
   simp only [objectCons, List.contains_cons, List.contains_nil, Bool.or_false, Bool.or_eq_true, beq_iff_eq] at hn
   rcases hn with rfl | rfl | rfl <;>
-    simp [keywordOf, constraintsMapFor, TYPE_CONSTRAINTS_MAP, assoc, validateEntry, checkSimple, sat, lenSat, lenOf, sizeKw,
+    simp [keywordOf, constraintsMapFor, TYPE_CONSTRAINTS_MAP, assoc, validateEntry, checkSimple, kwValue, sat, lenSat, lenOf, sizeKw,
       objSize, he, encodeDict_length] at hsat ⊢ <;>
     (cases v <;> (try simp_all [sizeKw, objSize, encodeDict_length]))
 
@@ -378,24 +378,83 @@ theorem val_scalar_cons (C : Ctx) (R : Rx) (L : RxLaws R) (hC : C.search = R.sea
   | null | bool | bytes | date | datetime | time | timedelta | uuid | list | tuple | set | dict =>
     rw [consOk_nil_allowed cs hc, consSchema_nil]; exact validateKws_nil ..
 
-theorem val_enum (C : Ctx) (R : Rx) (all : Obj) (e : EnumDecl) (r : PV) (hw : (enumPrim e).isSome = true)
+theorem checkType_names (ss : List String) (t : String) (j : Json) (hm : t ∈ ss) (ht : typeIs t j = true) :
+    checkType (namesType ss) j = true := by
+  unfold namesType
+  match ss with
+  | [] => cases hm
+  | [u] =>
+    simp only [List.mem_singleton] at hm
+    simp only [checkType]
+    rw [← hm]; exact ht
+  | u :: w :: rest =>
+    simp only [checkType, List.any_eq_true, List.mem_map]
+    exact ⟨.str t, ⟨t, hm, rfl⟩, ht⟩
+
+theorem checkType_enumType (e : EnumDecl) (k : Prim) (j : Json) (hk : k ∈ enumPyTypes e)
+    (ht : typeIs (getPrimitive k) j = true) : checkType (enumType e) j = true := by
+  unfold enumType
+  generalize enumPyTypes e = ps at hk
+  match ps with
+  | [] => cases hk
+  | [p] =>
+    simp only [List.mem_singleton] at hk
+    subst hk
+    exact ht
+  | p :: q :: rest =>
+    exact checkType_names _ (getPrimitive k) j (mem_dedupStrs.mpr (List.mem_map_of_mem hk)) ht
+
+theorem val_enum (C : Ctx) (R : Rx) (all : Obj) (e : EnumDecl) (r : PV)
+    (hw : (e.kinds.length == e.members.length && (match e.base with
+      | some b => e.kinds.all (· == b)
+      | none => true)) = true)
     (hc : conforms R (.enum e) r = true) (hs : safeDecimals r = true) :
     validateKws C all (enumSchema e) (encode r) = true := by
   rw [conforms.eq_def] at hc
-  cases r <;> simp at hc
+  cases r <;> simp only [Bool.false_eq_true] at hc
   rename_i v
-  cases hp : enumPrim e with
-  | none => simp [hp] at hw
-  | some p =>
-    simp only [hp] at hc
-    have hsv : safeDecimals v = true := by rw [safeDecimals.eq_def] at hs; exact hs
-    have he : encode (.enumv v) = encode v := by rw [encode.eq_def]
-    unfold enumSchema
-    rw [validateKws_append, val_optStr C all "format" _ _ (by decide), Bool.and_true, validateKws_cons, validateKws_cons,
-      validateKws_cons, validateKws_nil, he]
-    simp only [hp]
-    rw [val_type C all _ _ (typeIs_plain p v hc.2 hsv), validateEntry_annotation C all "x-annotation" _ _ (by decide)]
-    simp [validateEntry, checkSimple, kEnum, hc.1]
+  rw [List.any_eq_true] at hc
+  obtain ⟨mk, hmk, hcond⟩ := hc
+  rw [Bool.and_eq_true] at hcond
+  have hsv : safeDecimals v = true := by rw [safeDecimals.eq_def] at hs; exact hs
+  have he : encode (.enumv v) = encode v := by rw [encode.eq_def]
+  have hmem : mk.1 ∈ e.members := (List.of_mem_zip hmk).1
+  have hkin : mk.2 ∈ e.kinds := (List.of_mem_zip hmk).2
+  have hpy : mk.2 ∈ enumPyTypes e := by
+    unfold enumPyTypes
+    rw [Bool.and_eq_true] at hw
+    cases hb : e.base with
+    | none => exact mem_dedupPrims.mpr hkin
+    | some b =>
+      have := hw.2
+      simp only [hb, List.all_eq_true] at this
+      have := this mk.2 hkin
+      simp only [List.mem_singleton]
+      simpa using this
+  unfold enumSchema
+  rw [validateKws_append, val_optStr C all "format" _ _ (by decide), Bool.and_true, validateKws_cons, validateKws_cons,
+    validateKws_cons, validateKws_nil, he, validateEntry_annotation C all "x-annotation" _ _ (by decide)]
+  have h1 : validateEntry C all "type" (enumType e) (encode v) = true := by
+    simp only [validateEntry, checkSimple, (by decide : ("type" == "items") = false),
+      (by decide : ("type" == "prefixItems") = false), (by decide : ("type" == "contains") = false),
+      (by decide : ("type" == "properties") = false), (by decide : ("type" == "patternProperties") = false),
+      (by decide : ("type" == "additionalProperties") = false), (by decide : ("type" == "allOf") = false),
+      (by decide : ("type" == "anyOf") = false), (by decide : ("type" == "oneOf") = false),
+      (by decide : ("type" == "not") = false), (by decide : ("type" == "$ref") = false), beq_self_eq_true,
+      Bool.false_eq_true, if_false, if_true]
+    exact checkType_enumType e mk.2 _ hpy (typeIs_plain mk.2 v hcond.2 hsv)
+  have h2 : validateEntry C all "enum" (.arr (e.members.map (·.2))) (encode v) = true := by
+    simp only [validateEntry, checkSimple, kEnum, memEqv, List.any_eq_true, List.mem_map,
+      (by decide : ("enum" == "items") = false),
+      (by decide : ("enum" == "prefixItems") = false), (by decide : ("enum" == "contains") = false),
+      (by decide : ("enum" == "properties") = false), (by decide : ("enum" == "patternProperties") = false),
+      (by decide : ("enum" == "additionalProperties") = false), (by decide : ("enum" == "allOf") = false),
+      (by decide : ("enum" == "anyOf") = false), (by decide : ("enum" == "oneOf") = false),
+      (by decide : ("enum" == "not") = false), (by decide : ("enum" == "$ref") = false),
+      (by decide : ("enum" == "type") = false), beq_self_eq_true, Bool.false_eq_true, if_false, if_true]
+    exact ⟨mk.1.2, ⟨mk.1, hmem, rfl⟩, hcond.1⟩
+  rw [h1, h2]
+  rfl
 
 /-! ### combinators -/
 
